@@ -1134,15 +1134,6 @@ Proof.
 Qed.
 
 (* after the all-events pass [c] is in no all-events set; after the events pass in no event's set *)
-Lemma svc_drop_events_not_in c sv e set : s_events (svc_drop_events c sv) !! e = Some set -> c ∉ set /\ set <> ∅.
-Proof.
-  unfold svc_drop_events. cbn. rewrite lookup_omap. destruct (s_events sv !! e) as [set0|]; cbn; [|discriminate].
-  unfold drop_sub. destruct (bool_decide_reflect (c ∈ set0)) as [Hin|Hnin].
-  - destruct (bool_decide_reflect (set0 ∖ {[c]} = ∅)) as [He|Hne]; [discriminate|]. intros [= <-].
-    split; [set_solver|exact Hne].
-  - intros [= <-]. split; [exact Hnin|]. intros ->. (* an empty stored set stays: not our concern *)
-Abort.
-
 Lemma svc_drop_events_not_in c sv e set : s_events (svc_drop_events c sv) !! e = Some set -> c ∉ set.
 Proof.
   unfold svc_drop_events. cbn. rewrite lookup_omap. destruct (s_events sv !! e) as [set0|]; cbn; [|discriminate].
@@ -1153,3 +1144,123 @@ Qed.
 
 Lemma svc_drop_all_not_in c sv : c ∉ s_all (svc_drop_all c sv).
 Proof. unfold svc_drop_all. cbn. set_solver. Qed.
+
+(* C04_fanout, dead subscribers: a subscriber whose receiver is gone gets nothing (see
+   [fanout_owner]) and is not connected any more after the step *)
+Theorem fanout_dead_removed s c cs sc ev v f b s' o k sv x :
+  conns s !! c = Some cs -> svc_by_cookie s sc = Some (k, sv) -> owner_of_svc s k = Some c ->
+  step s (Message c (EmitEvent sc ev v)) f b = Done (s', o) ->
+  x ∈ event_targets sv ev -> alive s x = false -> conns s' !! x = None.
+Proof.
+  intros Hc Hs Ho Hstep Hx Hdead.
+  pose proof Hstep as Hstep'. apply step_Done in Hstep' as (m & m' & Hh & _).
+  apply (queued_removed _ _ _ _ _ _ m x false Hstep Hh).
+  cbn [step_handler] in Hh. fold (m_init s) in Hh.
+  rewrite (handle_EmitEvent (m_init s) c cs) in Hh by exact Hc.
+  cbn [ms m_init] in Hh. rewrite Hs, Ho in Hh.
+  rewrite bool_decide_eq_true_2 in Hh by reflexivity. cbn [negb] in Hh.
+  fold (event_targets sv ev) in Hh. cbv zeta in Hh.
+  destruct (foldO _ _ _) as [m1|m1|] eqn:Ef in Hh; try discriminate.
+  - injection Hh as <-. apply fanout_fold in Ef as (_ & _ & E3 & _). rewrite E3. cbn.
+    apply elem_of_app. left. rewrite elem_of_list_In, <- in_rev, <- elem_of_list_In. apply elem_of_list_fmap.
+    exists x. split; [reflexivity|]. apply elem_of_list_In, filter_In. split.
+    + apply elem_of_list_In, elem_of_elements. exact Hx.
+    + cbn. rewrite Hdead. reflexivity.
+  - exfalso. clear -Ef. revert Ef. generalize (m_init s). induction (elements _) as [|y l IH]; intros m; cbn; [discriminate|].
+    unfold send_or_remove at 1. destruct (send m y _ _); try discriminate; apply IH.
+Qed.
+
+(* ---------------------------------------------------------------- no event out of thin air *)
+(* "and to no other connection", over all steps: an EmitEvent is output only in a step that
+   handles an EmitEvent message (and there only as [fanout_owner] says) *)
+Definition NoEmit (m : M) : Prop := List.filter is_emit (mo m) = [].
+
+Lemma NoEmit_snoc m o m' : is_emit o = false -> mo m' = mo m ++ [o] -> NoEmit m -> NoEmit m'.
+Proof. unfold NoEmit. intros Ho Hm H. rewrite Hm, list_filter_app, H. cbn. rewrite Ho. reflexivity. Qed.
+
+Ltac leaf_noemit :=
+  idtac;
+  first
+    [ match goal with H : NoEmit ?m |- NoEmit _ => exact H end
+    | match goal with |- NoEmit (set mo _ ?x) =>
+        eapply (NoEmit_snoc x); [|reflexivity|leaf_noemit]; reflexivity end
+    | match goal with |- ?P (push_remove ?x _ _) => change (P x) end
+    | match goal with |- ?P (set _ _ ?x) => change (P x) end ].
+
+Lemma remove_end_noemit m k e : NoEmit m -> oprop NoEmit (remove_end m k e).
+Proof. intros H. unfold remove_end. repeat prop_step leaf_noemit. Qed.
+Lemma remove_service_noemit m k : NoEmit m -> oprop NoEmit (remove_service m k).
+Proof. intros H. unfold remove_service. repeat prop_step leaf_noemit. Qed.
+Lemma remove_object_noemit m k : NoEmit m -> oprop NoEmit (remove_object m k).
+Proof.
+  intros H. unfold remove_object.
+  repeat first [ match goal with |- oprop _ (remove_service _ _) => apply remove_service_noemit end
+               | prop_step leaf_noemit ]; assumption.
+Qed.
+Lemma remove_listener_noemit m k : NoEmit m -> NoEmit (remove_listener m k).
+Proof. intros H. unfold remove_listener. destruct (listeners (ms m) !! k); exact H. Qed.
+
+Lemma oprop_refail' (P : M -> Prop) r :
+  oprop P r -> oprop P (match r with Done m3 => Fail m3 | Fail a => Fail a | Panic site => Panic site end).
+Proof. destruct r; exact id. Qed.
+
+Lemma handle_noemit m c x f b :
+  (match x with EmitEvent _ _ _ => False | _ => True end) ->
+  NoEmit m -> oprop NoEmit (handle m c x f b).
+Proof.
+  intros Hx H. unfold handle. destruct (conns (ms m) !! c) as [cs|] eqn:Hc; [|exact H].
+  destruct x; try contradiction; clear Hx;
+    unfold gate, ver_of, create_service_impl, call_impl; cbv zeta beta; try (rewrite Hc; cbn [fmap option_fmap option_map]);
+    try (solve [repeat first
+                  [ match goal with
+                    | |- oprop _ (remove_object _ _) => apply remove_object_noemit
+                    | |- oprop _ (remove_service _ _) => apply remove_service_noemit
+                    | |- oprop _ (remove_end _ _ _) => apply remove_end_noemit
+                    | |- NoEmit (remove_listener _ _) => apply remove_listener_noemit
+                    end
+                  | prop_step leaf_noemit ]; try assumption]).
+  match goal with |- context [chans (ms m) !! ?k] => destruct (chans (ms m) !! k) as [ch|] end;
+    [|repeat prop_step leaf_noemit; assumption].
+  match goal with |- context [chan_claim ch c ?e] => destruct (chan_claim ch c e) as [r|ch' other r|site] end;
+    [repeat prop_step leaf_noemit; assumption| |exact I].
+  match goal with |- context [send ?mm c ?x None] => destruct (send mm c x None) as [m2|m2|] eqn:Es end; [| |exact I].
+  - apply send_Done in Es as [-> _]. repeat prop_step leaf_noemit; assumption.
+  - apply send_Fail in Es as [-> _]. apply oprop_refail'. repeat prop_step leaf_noemit; assumption.
+Qed.
+
+Theorem no_spurious_emit s e f b s' o :
+  step s e f b = Done (s', o) ->
+  (match e with Message _ (EmitEvent _ _ _) => False | _ => True end) ->
+  List.filter is_emit o = [].
+Proof.
+  intros Hstep He. apply step_outputs in Hstep as (m & l & Hh & -> & Hl).
+  rewrite list_filter_app, (filter_K_settle_nil is_emit l K_settle_not_emit Hl), app_nil_r.
+  change (NoEmit m).
+  assert (Hinit : NoEmit (m_init s)) by reflexivity.
+  destruct e; cbn [step_handler] in Hh; fold (m_init s) in Hh.
+  - destruct (conns s !! c); [discriminate|]. injection Hh as <-. reflexivity.
+  - injection Hh as <-. reflexivity.
+  - assert (Hx : match m0 with EmitEvent _ _ _ => False | _ => True end) by (destruct m0; auto).
+    pose proof (handle_noemit (m_init s) c m0 f b Hx Hinit) as Hp.
+    destruct (handle (m_init s) c m0 f b) as [m1|m1|]; try discriminate; injection Hh as <-; exact Hp.
+  - injection Hh as <-.
+    change (NoEmit (foldr (fun (p : conn * cstate) (m : M) => push_remove m p.1 true) (m_init s) (map_to_list (conns s)))).
+    apply (prop_foldr NoEmit); [|exact Hinit]. intros x a Hx. exact Hx.
+  - injection Hh as <-. reflexivity.
+  - injection Hh as <-. reflexivity.
+  - injection Hh as <-. destruct (conns s !! c); reflexivity.
+Qed.
+
+(* packaged for Props/C04.v *)
+Lemma no_longer_subscribed c sv :
+  (forall e set, s_events (svc_drop_events c sv) !! e = Some set -> c ∉ set) /\ c ∉ s_all (svc_drop_all c sv).
+Proof. split; [exact (svc_drop_events_not_in c sv)|exact (svc_drop_all_not_in c sv)]. Qed.
+
+Lemma service_destroyed_queue m cookie k sv m' :
+  svc_by_cookie (ms m) cookie = Some (k, sv) -> remove_service m cookie = Done m' ->
+  svcs (ms m') = delete k (svcs (ms m)) /\
+  w_svc_destroyed (mw m') =
+    ((fun x => (x, cookie)) <$> List.filter (connected (ms m)) (elements (destroyed_targets sv))) ++ w_svc_destroyed (mw m).
+Proof.
+  intros H1 H2. destruct (remove_service_spec m cookie k sv m' H1 H2) as (A & _ & _ & B & _). exact (conj A B).
+Qed.
